@@ -41,7 +41,10 @@ Out(t) == <<t.res, ErrMap(t)>>
 LiveAsMap(st) == [i \in {st.live[j].id : j \in 1..Len(st.live)} |->
                     LET j == CHOOSE j \in 1..Len(st.live) : st.live[j].id = i
                     IN [pt |-> st.live[j].pt, meta |-> st.live[j].meta]]
-Same(st, s) == LiveAsMap(st) = s /\ Len(st.live) = Cardinality(DOMAIN s) /\ st.len = Cardinality(DOMAIN s)
+Same(st, s) == /\ LiveAsMap(st) = s /\ Len(st.live) = Cardinality(DOMAIN s) /\ st.len = Cardinality(DOMAIN s)
+               \* ... and nothing else is reachable: no stale entry point, no stale objects
+               /\ (DOMAIN s = {} => Len(st.ep) = 0)
+               /\ (DOMAIN s # {} => (Len(st.ep) = 4 /\ st.ep[2] = 0 /\ st.ep[3] = 1 /\ st.ep[1] \in DOMAIN s))
 
 Init == l = 1 /\ ref = <<Empty>> /\ refout = <<>> /\ viol = {}
 Step ==
